@@ -4,12 +4,12 @@ From BT Require Import Base.Util.
 From BT Require Base.Float Model.RTree Model.BBIFile Model.BigWigWrite Model.Pipeline Model.TempBuf
   Model.BigBedWrite Proofs.BedZoomFit Proofs.PipelineInv Proofs.PipelineThms Proofs.PipelineConv Proofs.PipelineLanes
   Model.PipelineConc Proofs.PipelineRefine Proofs.PipelineLanesProgress Model.PipelineZoom Proofs.PipelineZoom
-  Proofs.PipelineZoomProgress Properties.C11.
+  Proofs.PipelineZoomProgress Model.PipelineSeq Proofs.PipelineSeq Properties.C11.
 
 Module PinC11.
 Import Base.Float Model.RTree Model.BBIFile Model.BigWigWrite Model.Pipeline Proofs.PipelineInv Proofs.PipelineThms
   Proofs.PipelineConv Proofs.PipelineLanes Model.PipelineConc Proofs.PipelineRefine Proofs.PipelineLanesProgress
-  Model.PipelineZoom Proofs.PipelineZoom Proofs.PipelineZoomProgress Properties.C11.
+  Model.PipelineZoom Proofs.PipelineZoom Proofs.PipelineZoomProgress Model.PipelineSeq Proofs.PipelineSeq Properties.C11.
 Check (C11_fifo_order : forall g pre Ss sched, g_fifo g = true ->
   let s := run g sched (init pre Ss) in
   length (p_chroms s) = length Ss /\
@@ -172,4 +172,13 @@ Check (C11_zoom_completion : forall g o ress pre Sss K sched zb hs, g_fifo g = t
   write_zooms_two_pass o (Nlen pre) (zlevels ress Sss) = Ok (zb, hs) ->
   exists more, let s := zrun g o ress (sched ++ more) (zinit pre Sss) in
     zterminal s = true /\ z_file s = pre ++ zb /\ z_hdrs s = hs).
+Check (C11_seq_lanes_refines : forall g Ps Sss ords sched,
+  exists sched', q_l (qrun g sched (qinit Ps Sss ords)) = lrun g sched' (linit Ps Sss)).
+Check (C11_seq_lanes_progress : forall g Ps Sss K ords sched, g_fifo g = true -> (1 <= g_cap g)%nat -> (1 <= g_win g)%nat ->
+  length Ps = length Sss -> (1 <= length Sss)%nat -> Forall (fun Ss => length Ss = K) Sss -> ord_ok Sss ords ->
+  let s := qrun g sched (qinit Ps Sss ords) in
+  qterminal s = false -> exists t s', qstep g t s = Some s').
+Check (C11_seq_lanes_completion : forall g Ps Sss K ords sched, g_fifo g = true -> (1 <= g_cap g)%nat -> (1 <= g_win g)%nat ->
+  length Ps = length Sss -> (1 <= length Sss)%nat -> Forall (fun Ss => length Ss = K) Sss -> ord_ok Sss ords ->
+  exists more, qterminal (qrun g (sched ++ more) (qinit Ps Sss ords)) = true).
 End PinC11.
